@@ -117,6 +117,7 @@ func execC13(b []byte) vx.Verdict {
 	cancelBeforeFinish, overlappingSubmits := false, 0
 
 	runClient := func(ci int, ops []C13Op) {
+		var lastMine *c13Unit // the unit this client submitted last (operations with U == 999 aim at it)
 		for oi, op := range ops {
 			mu.Lock()
 			stop := verdict != nil
@@ -127,6 +128,9 @@ func execC13(b []byte) vx.Verdict {
 			pick := func() *c13Unit {
 				mu.Lock()
 				defer mu.Unlock()
+				if op.U == 999 {
+					return lastMine
+				}
 				if op.U < 0 || len(units) == 0 {
 					return nil
 				}
@@ -176,7 +180,8 @@ func execC13(b []byte) vx.Verdict {
 					}
 					id := unitIDFromFirst(first)
 					mu.Lock()
-					units = append(units, &c13Unit{id: id, kind: op.Kind})
+					lastMine = &c13Unit{id: id, kind: op.Kind}
+					units = append(units, lastMine)
 					acked = append(acked, id)
 					labels = append(labels, "submit:"+op.Kind)
 					mu.Unlock()
@@ -312,6 +317,33 @@ func execC13(b []byte) vx.Verdict {
 				return vx.CertainViolation("cancel-stops-process", "C13/process-survives-cancel:"+u.kind, "unit %s (%s) was reported cancelled/released but its process %d is still running 25 s later", u.id, u.kind, pid)
 			}
 		}
+	}
+	// ---- ... also on the remote node: what the submitter records as locally cancelled must not (go on to) run there
+	if msg := vx.WaitFor(45*time.Second, 250*time.Millisecond, func() string {
+		la, err := listUnits(wa.Sock, 10*time.Second)
+		if err != nil {
+			return "" // judged elsewhere
+		}
+		lb, err := listUnits(wb.Sock, 10*time.Second)
+		if err != nil {
+			return ""
+		}
+		for id, st := range la {
+			m, ok := st.ExtraData.(map[string]interface{})
+			if !ok {
+				continue
+			}
+			lc, _ := m["LocalCancelled"].(bool)
+			ru, _ := m["RemoteUnitID"].(string)
+			if lc && ru != "" {
+				if b, ok := lb[ru]; ok && (b.State == workceptor.WorkStateRunning || b.State == workceptor.WorkStatePending) {
+					return fmt.Sprintf("unit %s is recorded as locally cancelled on the submitting node (state %s, %q) while its remote unit %s is %s on the executing node", id, workceptor.WorkStateToString(st.State), st.Detail, ru, workceptor.WorkStateToString(b.State))
+				}
+			}
+		}
+		return ""
+	}); msg != "" {
+		return vx.Violation("cancel-stops-process", "C13/remote-runs-after-cancel", "%s 45 s after the last operation (link healed)", msg)
 	}
 	// ---- a successful release removes the unit
 	c, err := ctl()
